@@ -230,7 +230,10 @@ theorem reported_width_is_line_sum (P : Params K) (items : List (Item K)) (lineW
 non-negative `DemeritsFitness`; non-negative widths, glue with `0 ≤ shrink ≤ width` (known finding
 `glue-shrink-exceeds-width`, see `feasible_missed_witness`) and non-negative stretch; a box between
 any two legal breakpoints; an unflagged first item (the start node reads `items[0].Flagged`); no
-glue as last item. Penalties may have width (hyphens). -/
+glue as last item; and `snap`: the exact-fit guard of `computeAdjustmentRatio` (`|L−W| ≤ eps·W ⇒ L := W`,
+`|r+1| ≤ eps ⇒ r := −1`, `eps = 1e-10` in the code, `Params.eps` in the model) changes the ratio of no
+candidate line, i.e. no line lies strictly inside the guard band (trivial for `eps = 0`, decidable per
+paragraph by `snapFreeB`). Penalties may have width (hyphens). -/
 abbrev WellFormed (P : Params K) (items : List (Item K)) (lineW : K) : Prop := WF P items lineW
 
 /-- **Optimality** (`C17.optimal` of the design), against the L3 specification: for a well-formed
@@ -341,7 +344,7 @@ end field
 non-vacuity of the hypotheses above. Evaluated by the kernel. -/
 section witnesses
 
-def Pq : Params Rat := ⟨2, 10, 100, 100, 1000⟩
+def Pq : Params Rat := ⟨2, 10, 100, 100, 1000, 1 / 10000000000⟩
 def bx (w : Rat) : Item Rat := ⟨Ty.box, w, 0, 0, 0, false⟩
 def gl (w y z : Rat) : Item Rat := ⟨Ty.glue, w, y, z, 0, false⟩
 def pn (w p : Rat) (f : Bool) : Item Rat := ⟨Ty.penalty, w, 0, 0, p, f⟩
@@ -415,7 +418,8 @@ def paraJustified : List (Item Rat) := [bx 3, gl 1 (1/2) (1/3), bx 3, gl 1 (1/2)
 
 /-- non-vacuity of `optimal_over_breakings`: the paragraph is well-formed (`WF`) ... -/
 example : WF Pq paraJustified 8 := by
-  refine ⟨by decide +kernel, by decide +kernel, by decide +kernel, ?_, ?_, by decide +kernel, ?_⟩
+  refine ⟨by decide +kernel, by decide +kernel, by decide +kernel, ?_, ?_, by decide +kernel, ?_,
+    snap_of_snapFreeB Pq paraJustified 8 (by decide +kernel)⟩
   · intro it hit
     simp only [paraJustified, nl, List.cons_append, List.nil_append, List.mem_cons, List.not_mem_nil, or_false] at hit
     rcases hit with rfl | rfl | rfl | rfl | rfl | rfl | rfl <;> decide +kernel
@@ -452,7 +456,8 @@ def paraRelax : List (Item Rat) := [bx 3, gl 1 1 0, bx 3, pn 0 (-1000) false]
 /-- non-vacuity of `relax_minimal` / `overflow_only_if_unavoidable`: the paragraph is well-formed, its only
 breaking is feasible at `t = 3` (and at +∞) but not at `Tolerance = 2`, and the run indeed relaxes -/
 example : WF Pq paraRelax 10 := by
-  refine ⟨by decide +kernel, by decide +kernel, by decide +kernel, ?_, ?_, by decide +kernel, ?_⟩
+  refine ⟨by decide +kernel, by decide +kernel, by decide +kernel, ?_, ?_, by decide +kernel, ?_,
+    snap_of_snapFreeB Pq paraRelax 10 (by decide +kernel)⟩
   · intro it hit
     simp only [paraRelax, List.mem_cons, List.not_mem_nil, or_false] at hit
     rcases hit with rfl | rfl | rfl | rfl <;> decide +kernel
